@@ -13,7 +13,7 @@ NAMESPACE = 'Props.C07'
 LEAN_CONE = ['PncModel.NcStore', 'PncProofs.C07']
 LEMMA_FILES = []
 REQUIRED_THEOREMS = ['cell_roundtrip', 'var_roundtrip', 'file_roundtrip', 'mask_lost_counterexample']
-RULE = ('random files (1-3 dimensions, optional unlimited first dimension, 1-5 variables of every dtype the flavour '
+RULE = ('random files (1-3 dimensions, optional unlimited first dimension - several unlimited dimensions in NETCDF4 -, 1-5 variables of every dtype the flavour '
         'can store incl. char, rank 0-3, masked variables whose fill is given as fill_value / missing_value / '
         '_FillValue / both (equal or different), str / float / int / array attributes on variables and file, a '
         'leading-underscore attribute) x four netCDF flavours x complevel 0/4: save() then pncopen(format=netcdf); '
@@ -41,7 +41,8 @@ def gen(rng, tier):
     for _ in range(n):
         fl = rng.choice(FLAVOURS)
         nd = rng.randint(1, 3)
-        dims = [[nm, rng.randint(1, 3), (i == 0 and rng.random() < 0.4)] for i, nm in enumerate(['t', 'y', 'x'][:nd])]
+        dims = [[nm, rng.randint(1, 3), ((i == 0 or fl == 'NETCDF4') and rng.random() < 0.4)]
+                for i, nm in enumerate(['t', 'y', 'x'][:nd])]        # NETCDF4 may have several unlimited dimensions
         dims.append(['s', 4, False])
         vs = []
         for vi in range(rng.randint(1, 5)):
@@ -57,8 +58,9 @@ def gen(rng, tier):
             vs.append(dict(name='V%d' % vi, dt=dt, dims=vd, how=how, fv=fv, attrs=rng.sample(sorted(VATTRS), rng.randint(0, 3)),
                            seed=rng.randrange(1000), nmask=rng.randint(0, 2), hit_fill=rng.random() < 0.05))
         # the unlimited dimension needs a variable, otherwise netCDF cannot store its length
-        if dims[0][2] and not any(dims[0][0] in v['dims'] for v in vs):
-            dims[0][2] = False
+        for d in dims:
+            if d[2] and not any(d[0] in v['dims'] for v in vs):
+                d[2] = False
         ga = rng.sample([k for k in sorted(GATTRS) if k != 'big' or fl == 'NETCDF4'], rng.randint(0, 4))
         out.append(dict(flavour=fl, complevel=rng.choice([0, 0, 4]), dims=dims, vars=vs, gattrs=ga))
     out.append(witnesses()[0][1])
